@@ -540,6 +540,9 @@ type hostTrack struct {
 // Apply runs one step on the real instance and returns what was observed.
 func (w *World) Apply(st *Step) (obs *StepObs) {
 	obs = &StepObs{}
+	// a replayed input may list an object twice: the last entry is the desired state
+	st.Hosts = dedupHosts(st.Hosts)
+	st.Backs = dedupBacks(st.Backs)
 	cfg := w.Inst.Config()
 	first := w.nstep == 0
 	obs.First = first
